@@ -12,8 +12,10 @@ Quantifier.  The property's round trip can only hold for canonical encodings (no
 bit, the form an assembler picks): a miss is reported only if GNU as, given the concrete rendering at the solver's
 witness, produces exactly the original bytes (then the text is a valid spelling of a canonical encoding and miasmX's
 own parser fails to reproduce it), or if miasmX's parser raises on its own rendering.  Rendering crashes are C10's.
-NOT addressed: "each rendering is accepted by GNU as" as a claim of its own (GNU as is only the canonicity filter
-above); digit-string <-> integer conversion.
+Arbiter level (witnesses, labelled so): for instructions a compiler emits (no raw relative-branch displacement, no
+absolute numeric memory operand) the concrete rendering at the path witness - one per operand shape - must be accepted
+by GNU as in the matching syntax mode and assemble to an encoding that objdump reads as the same instruction as the
+original bytes (keys gas-rejects / gas-differs).  NOT modelled: digit-string <-> integer conversion.
 """
 import sys
 import time
@@ -27,6 +29,7 @@ from vf.x86 import explore as E
 from vf.x86 import asmdrive as AD
 from vf.x86 import roundtrip as RT
 from vf.oracles import gas
+from vf.oracles import objdump as OD
 from vf.checks import c05, c10
 
 PROP = 'C09'
@@ -36,7 +39,7 @@ def worker_init():
     AD.worker_init()
 
 
-def jobs(tier, seed, syntaxes=('intel', 'att'), nsample=110):
+def jobs(tier, seed, syntaxes=('intel', 'att'), nsample=30):
     import random
     if E.A is None:
         common.env_setup()
@@ -49,10 +52,19 @@ def jobs(tier, seed, syntaxes=('intel', 'att'), nsample=110):
         rest = [j for j in ej if j[4] not in QUICK_ALWAYS]
         rnd.shuffle(rest)
         ej = core_rows + rest[:nsample]
+        # every other row in the thinnest ModRM slice (mnemonic-specific rendering rules are per row: a sample of rows would miss them)
+        chosen = set((j[0], j[1], j[2]) for j in ej)
+        for j in E.make_jobs(tier, seed, prefix_sets=[()], sib='one', per_signature=False):
+            if (j[0], j[1], j[2]) not in chosen:
+                ej.append(j)
+    # scalar SSE forms exist only under the mandatory prefixes f2 / f3
+    for j in E.make_jobs(tier, seed, prefix_sets=[(0xF2,), (0xF3,)], sib='one' if tier == 'quick' else 'min', per_signature=False):
+        if E._row_is_mmx(j[1], j[2]):
+            ej.append(j)
     return [('rt', j, tier, sx) for j in ej for sx in syntaxes]
 
 
-QUICK_ALWAYS = ('mov', 'push', 'lea', 'jmp', 'call', 'fsub', 'fsubr', 'fdiv', 'fdivr', 'fsubp', 'fdivp', 'fsubrp', 'fdivrp', 'imul', 'shl', 'movzx', 'in', 'out', 'ret', 'enter',
+QUICK_ALWAYS = ('mov', 'push', 'lea', 'jmp', 'call', 'fsub', 'fsubr', 'fdiv', 'fdivr', 'fsubp', 'fdivp', 'fsubrp', 'fdivrp', 'shl', 'movzx', 'in', 'out', 'ret', 'enter',
                 'xchg', 'test', 'fld', 'fstp', 'movq', 'movd', 'les', 'bound', 'cmpxchg8b', 'fadd', 'faddp')
 
 
@@ -77,6 +89,10 @@ def run_rt(job, res, which='C09'):
         if not isinstance(txt, str) or '<sym' in txt:
             return ('ABORT', 'rendering used a formatting path that is not modelled')
         orig = d.data.items[:i.l]
+        afs = E.A.x86_afs
+        absmem = any(isinstance(a, dict) and a.get(afs.ad) and not any(isinstance(k_, int) for k_ in a) for a in i.arg)
+        nimm = sum(1 for a in i.arg if isinstance(a, dict) and not a.get(afs.ad) and afs.imm in a and not any(isinstance(k_, int) for k_ in a))
+        notcc = absmem or (name in ('jmp', 'call') and nimm >= 2)
         try:
             cands = RT.asm_text(txt, rm, att)
         except PathAbort:
@@ -89,11 +105,12 @@ def run_rt(job, res, which='C09'):
             return ('ABORT', 'assembler returned %s' % type(cands).__name__)
         r = RT.contains(eng, cands, orig)
         if r is True:
-            return ('OK', name)
+            m0 = eng.witness()
+            return ('OK', name, RT.concrete_text(txt, rm, m0), E.witness_bytes(eng, d, m0)[:i.l], notcc)
         if r is None:
             return ('ABORT', 'membership query unknown')
         return ('MISS', 'not-reproduced:%s' % name, 'assembling the %s rendering gives %d candidate(s), none is the original encoding' % (sx, len(cands)),
-                RT.concrete_text(txt, rm, r), E.witness_bytes(eng, d, r)[:i.l])
+                RT.concrete_text(txt, rm, r), E.witness_bytes(eng, d, r)[:i.l], notcc)
     eng, rs = E.explore(ejob, on_path, max_paths=20000, max_seconds=300 if tier == 'quick' else 1200)
     res['paths'] += eng.stats['paths']
     res['queries'] += eng.stats['queries']
@@ -114,6 +131,39 @@ def run_rt(job, res, which='C09'):
                 res['render_raises'] = res.get('render_raises', 0) + 1
         else:
             res['inconclusive'].append('%s: %s' % (title, r[1] if len(r) > 1 else r[0]))
+    # arbiter clause (witness level, labelled so): for instructions a compiler emits - no raw relative-branch displacement, no
+    # absolute numeric memory operand - GNU as must accept the rendering and assemble it to an encoding of the same instruction
+    if which == 'C09':
+        arb = {}
+        for r in rs:
+            if r[0] == 'OK' and len(r) > 3:
+                nm, text, byts, notcc = r[1], r[2], r[3], r[4]
+            elif r[0] == 'MISS' and len(r) > 5:
+                nm, text, byts, notcc = r[1].split(':')[-1], r[3], r[4], r[5]
+            else:
+                continue
+            if notcc or not compiler_emitted(nm, text, att):
+                continue
+            arb.setdefault((nm, shape_of(text, False)), (nm, text, byts))
+        items = list(arb.values())[:500]
+        if items:
+            refs = gas.reference([canon_text(t, att) for _, t, _ in items], att=att, want_bytes=True)
+            ods = OD.disassemble([bytes(b) for _, _, b in items])
+            reported = set()
+            for (nm, text, byts), ref, od in zip(items, refs, ods):
+                res['arbiter_witnesses'] = res.get('arbiter_witnesses', 0) + 1
+                v = arbiter_verdict(ref, od, bytes(byts))
+                if v is None:
+                    res['arbiter_agree'] = res.get('arbiter_agree', 0) + 1
+                    continue
+                if v[0] == 'skip':
+                    continue
+                key = '%s:%s:%s:%s' % (sx, v[0], nm, shape_of(text, True))
+                if key in reported:
+                    continue
+                reported.add(key)
+                res['candidates'].append({'key': key, 'desc': '%s: %r for %s: %s' % (title, text, bytes(byts).hex(), v[1]),
+                                          'data': {'bytes': list(byts), 'att': att, 'prop': which, 'arbiter': v[0]}})
     # canonicity filter (GNU as on the concrete rendering at the witness)
     if misses:
         # one representative per (kind, mnemonic, concrete operand shape); the finding key abstracts register names to classes
@@ -141,6 +191,55 @@ def run_rt(job, res, which='C09'):
         res['nontrivial'] += 1
         if len(res['samples']) < 2:
             res['samples'].append({'row': title, 'paths': len(rs), 'verdict': 'rendering re-assembles to the original bytes on %d path(s), all immediates / displacements symbolic' % ok})
+
+
+BRANCHES = ('jmp', 'call', 'loop', 'loope', 'loopne', 'jecxz', 'jcxz', 'xbegin')
+
+
+def compiler_emitted(name, text, att):
+    """the property's restriction of the GNU-as clause: no raw relative-branch displacement, no absolute numeric memory operand"""
+    import re
+    sh = shape_of(text, False)
+    if (name in BRANCHES or (name.startswith('j') and len(name) <= 4)) and re.fullmatch(r'[-+]?N', sh.replace('$', '')):
+        return False
+    if att:
+        for op in sh.split(','):
+            op = op.strip()
+            if re.fullmatch(r'(%[a-z]s:)?-?N', op) or re.fullmatch(r'\*-?N', op):
+                return False
+    else:
+        if re.search(r'(PTR|\[)-?N\]?(,|$)', sh) or re.search(r'[a-z]s:-?N(,|$)', sh) or re.search(r'PTR-?N', sh):
+            return False
+    return True
+
+
+def arbiter_verdict(ref, od, b):
+    """ref: gas.reference(..., want_bytes=True) entry for the rendering; od: objdump of the original bytes b"""
+    if od is None:
+        return ('skip', 'objdump does not decode the original bytes')
+    try:
+        co = OD.canon(od[1], 'objdump', addr=0, length=od[0], opsize16=(b[:1] == b'\x66' or b[1:2] == b'\x66'))
+    except OD.Unparsed:
+        return ('skip', 'objdump output of the original bytes is not parsed')
+    if od[0] != len(b):
+        return ('skip', 'objdump reads another length')
+    if ref is None:
+        return ('gas-rejects', 'GNU as rejects the rendering (or warns)')
+    try:
+        cr = OD.canon(ref[1], 'objdump', addr=0, length=ref[0], opsize16=(bytes(ref[2])[:1] == b'\x66' or bytes(ref[2])[1:2] == b'\x66'))
+    except OD.Unparsed:
+        return ('skip', 'objdump output of the GNU as encoding is not parsed')
+    # a 16/32-bit general register next to a segment register is one operand (the operand-size prefix is meaning-free there)
+    def widen(c_):
+        p_, m_, ops_ = c_
+        if m_ == 'mov' and any(o[0] == 'reg' and o[1] in ('es', 'cs', 'ss', 'ds', 'fs', 'gs') for o in ops_):
+            ops_ = [('reg', 'e' + o[1]) if (o[0] == 'reg' and o[1] in OD.REG16) else o for o in ops_]
+        return p_, m_, ops_
+    cr, co = widen(cr), widen(co)
+    why = OD.same(cr, co)
+    if why:
+        return ('gas-differs', 'GNU as reads the rendering as %r, the original bytes are %r (%s)' % (ref[1], od[1], why))
+    return None
 
 
 _REGCLASS = None
@@ -189,6 +288,14 @@ b = bytes(D['bytes']); att = D['att']; bad = False
 i = x86mnemo.dis(b + b'\x90' * 4)
 txt = i.__str__('att_syntax binutils') if att else str(i)
 print(b.hex(), '->', repr(txt))
+if D.get('arbiter'):
+    from vf.checks import c09
+    from vf.oracles import objdump as OD
+    ref = gas.reference([' '.join(txt.split())], att=att, want_bytes=True)[0]
+    v = c09.arbiter_verdict(ref, OD.disassemble([b])[0], b)
+    print('GNU as:', None if ref is None else (ref[1], bytes(ref[2]).hex()), '| verdict:', v)
+    bad = v is not None and v[0] == D['arbiter']
+    print(%(prop)r, 'replay:', 'VIOLATED' if bad else 'holds'); sys.exit(1 if bad else 0)
 try:
     cands = x86mnemo.asm_att(txt) if att else x86mnemo.asm(txt)
     cands = [bytes(c) for c in cands]
@@ -226,7 +333,7 @@ def main(argv=None):
                                 'ia32_arch:x86_mn._asm / _asm_att, parse_mnemo, asm_candidates, forge_opc; core.parse_ad and ia32_att grammars; ply lex/yacc (real text, placeholders mapped back after lexing)']
     cov['bounds'] = ('rows of the live opcode trie x prefix sets %s, thin ModRM slice (every reg value; mod/rm/SIB representatives), 11 symbolic bytes; %s; '
                      'misses reported only for encodings GNU as reproduces from the rendering (canonical); GNU-as acceptance itself is NOT claimed'
-                     % ('(), (66)' if a.tier == 'quick' else '(), (66), (67)', 'quick: one row per signature, %d rows sampled by seed + a fixed core list' % 110 if a.tier == 'quick' else 'all rows'))
+                     % ('(), (66)' if a.tier == 'quick' else '(), (66), (67)', 'quick: a fixed core list + 30 rows sampled by seed in the thin slice, every other row in the thinnest slice (3 ModRM forms), prefix 66 only for the former' if a.tier == 'quick' else 'all rows'))
     if cov['proved'] == 0:
         herr.append('vacuous: nothing proved')
     assumptions = ['digit-string <-> integer conversion is not modelled (placeholders substituted after lexing)', 'GNU as 2.40 as canonicity filter at witnesses', 'z3 5.1.0', 'SInt / SBytes proxies']
